@@ -19,6 +19,7 @@ type Opts struct {
 	ByteSafe func() bool
 	Excluded map[string]int
 	NoNulls  bool // never draw null at nullable positions
+	ASCIIOnly bool // strings from the ASCII alphabet only
 	// NoNullObjects: known-finding exclusion nulls.nullable_object_with_properties.
 	NoNullObjects func() bool
 	// SmallAddlNumbers: known-finding exclusion addprops.int_beyond_2pow53.
@@ -83,7 +84,10 @@ func StringOfLen(t *rapid.T, n *model.Node, l int, o *Opts) (string, bool) {
 		}
 		s = p.Build(t, l)
 	} else {
-		s = drawString(t, l, rapid.Bool().Draw(t, "wide"))
+		s = drawString(t, l, rapid.Bool().Draw(t, "wide") && (o == nil || !o.ASCIIOnly))
+	}
+	if o != nil && o.ASCIIOnly {
+		s = asciiFold(s)
 	}
 	if o != nil && o.ByteSafe != nil && byteVerdictDiffers(n, s) && o.ByteSafe() {
 		if o.Excluded != nil {
